@@ -270,7 +270,7 @@ class HistRun(object):
                 continue
             wire.check_map(want, wmap)
             if got != want:
-                s, en, kind, width, path = _first_diff_range(want, got, wmap)
+                s, en, kind, width, path = _first_diff_range(want, got, wmap)[:5]
                 self.fail("C01", "bytes", "C01/%s/%s" % ("length" if len(got) != len(want) else "bytes",
                                                             _path_kind(self.T, path, kind)),
                           "encode(%r) = %s, canonical %s; first difference in %s %s [%d:%d]" %
@@ -1046,7 +1046,7 @@ def _first_diff_range(want, got, wmap):
     for r in wmap:
         if r[0] <= pos < r[1]:
             return r
-    return (pos, pos, "end", 0, "/end")
+    return (pos, pos, "end", 0, "/end", None)
 
 
 def _path_kind(T, path, kind):
